@@ -24,7 +24,9 @@ QUADS = [(0, 4, 8, 12), (1, 5, 9, 13), (2, 6, 10, 14), (3, 7, 11, 15), (0, 5, 10
 
 
 def round_lemmas(d):
-    # round(v, m, r) written out with literal message-word indices, one small lemma per round
+    # (1) round(v, m, r) written out with literal message-word indices, one small lemma per round (Seq level, as in RFC 7693);
+    # (2) the same steps on a sixteen-field record V16 (no sequences: the unrolled body then needs no extensional reasoning),
+    #     tied to the Seq-level G by one lemma per index quadruple and to `round` by one lemma per round
     W = d['W']
     o = []
     for r in range(12):
@@ -32,21 +34,58 @@ def round_lemmas(d):
         e = 'v'
         for i, (a, b, c, dd) in enumerate(QUADS):
             e = 'G(%s, %d, %d, %d, %d, m[%d], m[%d])' % (e, a, b, c, dd, sg[2 * i], sg[2 * i + 1])
-        o.append('pub proof fn lemma_round_%d(v: Seq<%s>, m: Seq<%s>)\n    ensures round(v, m, %d) == %s\n{ }' % (r, W, W, r, e))
-    o.append('pub proof fn lemma_rounds_step(v: Seq<%s>, m: Seq<%s>, n: int)\n    requires n >= 0\n    ensures rounds(v, m, n + 1) == round(rounds(v, m, n), m, n), rounds(v, m, 0) == v\n{ }' % (W, W))
+        o.append('pub proof fn lemma_round_%d(v: Seq<%s>, m: Seq<%s>)\n    ensures round(v, m, %d) == %s\n{ reveal(round); }' % (r, W, W, r, e))
+    o.append('pub proof fn lemma_rounds_step(v: Seq<%s>, m: Seq<%s>, n: int)\n    requires n >= 0\n    ensures rounds(v, m, n + 1) == round(rounds(v, m, n), m, n), rounds(v, m, 0) == v\n{ reveal_with_fuel(rounds, 2); }' % (W, W))
+    o.append('pub struct V16 { ' + ', '.join('pub v%d: %s' % (k, W) for k in range(16)) + ' }')
+    o.append('pub open spec fn vseq(v: V16) -> Seq<%s> { seq![%s] }' % (W, ', '.join('v.v%d' % k for k in range(16))))
+    for i, (a, b, c, dd) in enumerate(QUADS):
+        o.append('pub open spec fn gt%d(v: V16, x: %s, y: %s) -> V16 {' % (i, W, W))
+        o.append('    let a1 = addw(addw(v.v%d, v.v%d), x); let d1 = rotr(v.v%d ^ a1, %s);' % (a, b, dd, d['R1']))
+        o.append('    let c1 = addw(v.v%d, d1);            let b1 = rotr(v.v%d ^ c1, %s);' % (c, b, d['R2']))
+        o.append('    let a2 = addw(addw(a1, b1), y);     let d2 = rotr(d1 ^ a2, %s);' % d['R3'])
+        o.append('    let c2 = addw(c1, d2);              let b2 = rotr(b1 ^ c2, %s);' % d['R4'])
+        o.append('    V16 { v%d: a2, v%d: b2, v%d: c2, v%d: d2, ..v }' % (a, b, c, dd))
+        o.append('}')
+        o.append('pub proof fn lemma_gt%d(v: V16, x: %s, y: %s)\n    ensures vseq(gt%d(v, x, y)) == G(vseq(v), %d, %d, %d, %d, x, y)\n{ assert(vseq(gt%d(v, x, y)) =~= G(vseq(v), %d, %d, %d, %d, x, y)); }'
+                 % (i, W, W, i, a, b, c, dd, i, a, b, c, dd))
+    for r in range(12):
+        sg = SIG[r % 10]
+        e = 'v'
+        steps = []
+        for i in range(8):
+            steps.append('    lemma_gt%d(%s, m[%d], m[%d]);' % (i, e, sg[2 * i], sg[2 * i + 1]))
+            e = 'gt%d(%s, m[%d], m[%d])' % (i, e, sg[2 * i], sg[2 * i + 1])
+        o.append('pub open spec fn roundt_%d(v: V16, m: Seq<%s>) -> V16 { %s }' % (r, W, e))
+        o.append('pub proof fn lemma_roundt_%d(v: V16, m: Seq<%s>)\n    ensures vseq(roundt_%d(v, m)) == round(vseq(v), m, %d)\n{\n%s\n    lemma_round_%d(vseq(v), m);\n}' % (r, W, r, r, "\n".join(steps), r))
+    o.append('''/// feed-forward: h'[i] = h[i] ^ v[i] ^ v[i+8] over the rounds' result is F
+pub proof fn lemma_compress_final(h0: Seq<%s>, t0: %s, t1: %s, tv: int, blk: Seq<u8>, last: bool, m: Seq<%s>, va: Seq<%s>, v1: Seq<%s>, v2: Seq<%s>, tf: V16, hn: Seq<%s>)
+    requires h0.len() == 8, va == h0 + IV(), m == words_of(blk), (tv %% TW()) as %s == t0, ((tv / TW()) %% TW()) as %s == t1,
+        v1 == va.update(12, va[12] ^ t0).update(13, va[13] ^ t1), v2 == (if last { v1.update(14, !v1[14]) } else { v1 }),
+        vseq(tf) == rounds(v2, m, %s),
+        hn == h0.update(0, h0[0] ^ (tf.v0 ^ tf.v8)).update(1, h0[1] ^ (tf.v1 ^ tf.v9)).update(2, h0[2] ^ (tf.v2 ^ tf.v10)).update(3, h0[3] ^ (tf.v3 ^ tf.v11))
+            .update(4, h0[4] ^ (tf.v4 ^ tf.v12)).update(5, h0[5] ^ (tf.v5 ^ tf.v13)).update(6, h0[6] ^ (tf.v6 ^ tf.v14)).update(7, h0[7] ^ (tf.v7 ^ tf.v15)),
+    ensures hn == F(h0, tv, blk, last)
+{
+    reveal(F);
+    let vf = vseq(tf);
+    assert forall|i: int| 0 <= i < 8 implies #[trigger] hn[i] == h0[i] ^ vf[i] ^ vf[i + 8] by { lemma_xor_assoc(h0[i], vf[i], vf[i + 8]); }
+    assert(hn =~= F(h0, tv, blk, last));
+}''' % (W, W, W, W, W, W, W, W, W, W, d['NROUNDS']))
     return "\n".join(o)
 
 
 def compress_hints(d):
-    # proof hints for the unrolled compression function: the expansion leaves one lone `;` behind every G! (anchor `macro k`)
+    # proof hints for the unrolled compression function (after rule X18: sixteen scalars vs_0..vs_15): the expansion leaves one
+    # lone `;` behind every G! (anchor `macro k`); ghost states are V16 records built from the sixteen scalars
     W = d['W']
+    REC = 'V16 { ' + ', '.join('v%d: vs_%d' % (k, k) for k in range(16)) + ' }'
     o = []
     o.append('//%% at fn-start')
     o.append('    let ghost h0 = h@;')
     o.append('    let ghost tv = t[0] as int + t[1] as int * TW();')
-    o.append('//%% at call 2 copy_from_slice after')
+    o.append('//%% at text 1 vs_12 ^= before')
     o.append('    let ghost m = ms@;')
-    o.append('    let ghost va = vs@;')
+    o.append('    let ghost va = vseq(%s);' % REC)
     o.append('    proof {')
     o.append('        assert(%s::IV@ =~= IV());' % d['BS'])
     o.append('        assert(va =~= h0 + IV());')
@@ -56,31 +95,34 @@ def compress_hints(d):
     o.append('    }')
     o.append('    let ghost v1 = va.update(12, va[12] ^ t[0]).update(13, va[13] ^ t[1]);')
     o.append('    let ghost v2 = if last == LastBlock::Yes { v1.update(14, !v1[14]) } else { v1 };')
-    o.append('    let ghost g0 = v2;')
+    o.append('//%% at text 1 vs_0 = vs_0.wrapping_add(vs_4) before')
+    o.append('    let ghost t0 = %s;' % REC)
+    o.append('    proof { assert(vseq(t0) =~= v2); lemma_rounds_step(v2, m, 0); }')
     k = 0
     for r in range(12):
         sg = SIG[r % 10]
-        for i, (a, b, c, dd) in enumerate(QUADS):
+        for i in range(8):
             k += 1
             o.append('//%%%% at macro %d' % k)
-            o.append('    proof { assert(vs@ =~= G(g%d, %d, %d, %d, %d, m[%d], m[%d])); }' % (k - 1, a, b, c, dd, sg[2 * i], sg[2 * i + 1]))
-            o.append('    let ghost g%d = vs@;' % k)
+            o.append('    let ghost t%d = %s;' % (k, REC))
+            o.append('    proof { assert(t%d == gt%d(t%d, m[%d], m[%d])) by { reveal(addw); } }' % (k, i, k - 1, sg[2 * i], sg[2 * i + 1]))
             if i == 7:
                 o.append('    proof {')
-                o.append('        lemma_round_%d(g%d, m);' % (r, k - 8))
-                o.append('        assert(g%d == round(g%d, m, %d));' % (k, k - 8, r))
+                o.append('        assert(t%d == roundt_%d(t%d, m));' % (k, r, k - 8))
+                o.append('        lemma_roundt_%d(t%d, m);' % (r, k - 8))
                 o.append('        lemma_rounds_step(v2, m, %d);' % r)
-                o.append('        assert(g%d == rounds(v2, m, %d));' % (k, r + 1))
+                o.append('        assert(vseq(t%d) == rounds(v2, m, %d));' % (k, r + 1))
                 o.append('    }')
+    o.append('//%% at text 1 h[0] ^= before')
+    o.append('    let ghost tf = %s;' % REC)
+    o.append('    proof { assert(vseq(tf) == rounds(v2, m, %s)); }' % d['NROUNDS'])
     o.append('//%% at text 1 h[7] ^= after')
     o.append('    proof {')
-    o.append('        reveal(F);')
-    o.append('        let v = rounds(v2, m, %s);' % d['NROUNDS'])
-    o.append('        assert(vs@ == v);')
-    o.append('        assert forall|i: int| 0 <= i < 8 implies #[trigger] h@[i] == h0[i] ^ v[i] ^ v[i + 8] by { lemma_xor_assoc(h0[i], v[i], v[i + 8]); }')
-    o.append('        assert(h@ =~= F(h0, tv, buf@, last == LastBlock::Yes));')
+    o.append('        assert(h@ =~= h0.update(0, h0[0] ^ (tf.v0 ^ tf.v8)).update(1, h0[1] ^ (tf.v1 ^ tf.v9)).update(2, h0[2] ^ (tf.v2 ^ tf.v10)).update(3, h0[3] ^ (tf.v3 ^ tf.v11)).update(4, h0[4] ^ (tf.v4 ^ tf.v12)).update(5, h0[5] ^ (tf.v5 ^ tf.v13)).update(6, h0[6] ^ (tf.v6 ^ tf.v14)).update(7, h0[7] ^ (tf.v7 ^ tf.v15)));')
+    o.append('        lemma_compress_final(h0, t[0], t[1], tv, buf@, last == LastBlock::Yes, m, va, v1, v2, tf, h@);')
     o.append('    }')
     return "\n".join(o)
+
 
 for k, d in P.items():
     d = dict(d, COMPRESS_HINTS=compress_hints(d), ROUND_LEMMAS=round_lemmas(d))
@@ -98,4 +140,8 @@ for k, d in P.items():
         open(os.path.join(R, 'units', 'inc', fname), 'w').write(m.group(1))
         o = o[:m.start()] + '//% include ' + fname + '\n' + o[m.end():]
     open(os.path.join(R, 'units', 'blake2%s.vtpl' % k), 'w').write(o)
+    f = open(os.path.join(R, 'units', 'gen', 'blake2_f.tmpl')).read()
+    for a, b in d.items():
+        f = f.replace('@%s@' % a, b)
+    open(os.path.join(R, 'units', 'blake2%s_f.vtpl' % k), 'w').write(f)
 print('generated')
